@@ -141,6 +141,19 @@ pub fn programs() -> Vec<Prog> {
             ARRS, e.setup, e.call.replace("BUF", "&buf"), hs_expr,
             if e.kind == 2 { "hs.and_then(|h| h.get(0).copied())" } else { "hs.get(0).copied()" })));
     }
+    // the doc(hidden) `_benchable` items hand out slices too
+    for (name, call) in [("parse_method", "httparse::_benchable::parse_method(&mut b)"), ("parse_uri", "httparse::_benchable::parse_uri(&mut b)")] {
+        out.push(Prog { name: format!("_benchable::{} / result / buffer dropped before use", name), negative: true, src: format!(
+            "{}fn main() {{\n    let f;\n    {{\n        let buf = data();\n        let mut b = httparse::_benchable::Bytes::new(&buf);\n        f = {};\n    }}\n    sink(f);\n}}\n", PRELUDE, call) });
+        out.push(Prog { name: format!("_benchable::{} / result / buffer mutated while alive", name), negative: true, src: format!(
+            "{}fn main() {{\n    let mut buf = data();\n    let f;\n    {{\n        let mut b = httparse::_benchable::Bytes::new(&buf);\n        f = {};\n    }}\n    buf[0] = b'X';\n    sink(f);\n}}\n", PRELUDE, call) });
+        out.push(Prog { name: format!("_benchable::{} / result / required to be 'static", name), negative: true, src: format!(
+            "{}fn need_static<T: 'static>(_t: T) {{}}\nfn main() {{\n    let buf = data();\n    let mut b = httparse::_benchable::Bytes::new(&buf);\n    let f = {};\n    need_static(f);\n}}\n", PRELUDE, call) });
+        out.push(Prog { name: format!("_benchable::{} / result used while the buffer lives (control)", name), negative: false, src: format!(
+            "{}fn main() {{\n    let buf = data();\n    let mut b = httparse::_benchable::Bytes::new(&buf);\n    let f = {};\n    sink(f);\n}}\n", PRELUDE, call) });
+    }
+    out.push(Prog { name: "_benchable::Bytes / slice() result / buffer dropped before use".into(), negative: true, src: format!(
+        "{}fn main() {{\n    let f;\n    {{\n        let buf = data();\n        let mut b = httparse::_benchable::Bytes::new(&buf);\n        let _ = b.next();\n        f = b.slice();\n    }}\n    sink(f);\n}}\n", PRELUDE) });
     // usage patterns that must keep compiling
     out.push(Prog { name: "README loop: re-parse a growing Vec with a re-created Request (control)".into(), negative: false, src: format!(
         "{}fn main() {{\n    let mut buf: Vec<u8> = Vec::new();\n    let input = data();\n    for chunk in input.chunks(3) {{\n        buf.extend_from_slice(chunk);\n        let mut headers = [httparse::EMPTY_HEADER; 16];\n        let mut req = httparse::Request::new(&mut headers);\n        match req.parse(&buf) {{\n            Ok(httparse::Status::Complete(n)) => {{ sink((n, req.method, req.path)); break; }}\n            Ok(httparse::Status::Partial) => continue,\n            Err(e) => {{ sink(e); break; }}\n        }}\n    }}\n}}\n", PRELUDE) });
